@@ -238,3 +238,17 @@ Definition encryptsTrack (drmSet hasEncData : bool) : bool := drmSet && hasEncDa
     paths - scanned from the files (media timescale still unknown) and restored from the stored
     representation metadata (timescale already set, the function returns early after this step). *)
 Definition readInitPrepares (encryptableCodec timescaleKnown : bool) : bool := encryptableCodec.
+
+(** mp4ff's handling of the iv (InitProtect / EncryptFragment): an 8-byte iv is padded with zeros
+    to 16 bytes; [InitProtect] writes it as the constant IV of a cbcs tenc box as it is otherwise;
+    [EncryptFragment] refuses any other length ("iv must be 16 bytes" -> the request is answered 500).
+    A CPIX content key without explicitIV (the attribute is optional) has the empty iv. *)
+Definition padIV (iv : bytes) : bytes := if lenZ iv =? 8 then iv ++ repeat 0 8 else iv.
+
+(** the constant IV signalled by the served init segment (cbcs only) *)
+Definition signalledIV (p : protection) : bytes := if p_scheme p =? 1 then padIV (p_iv p) else [].
+
+(** does [encryptFrags] succeed, and with which iv *)
+Definition fragmentIV (p : protection) : res bytes :=
+  let iv := padIV (p_iv p) in
+  if lenZ iv =? 16 then Ok iv else Err "iv must be 16 bytes".
